@@ -62,7 +62,6 @@ LeafOf(name, env) ==
   LET idx == {i \in 1..Len(env.leaves) : env.leaves[i].name = name}
   IN  env.leaves[CHOOSE i \in idx : TRUE]
 
-SeqAll(sq, P(_)) == \A i \in 1..Len(sq) : P(sq[i])
 FirstErr(ts) ==     \* leftmost operand error, propagated unchanged
   LET bad == {i \in 1..Len(ts) : IsErr(ts[i])}
   IN  ts[CHOOSE i \in bad : \A j \in bad : i <= j]
